@@ -202,3 +202,28 @@ def contains(tree, node):
         if n is node:
             return True
     return False
+
+
+def with_helpers(fn, depth=1):
+    """fn and the same-class member functions it calls on this object (bodies available), `depth` levels deep: a
+    maintainer may move part of a function into a private helper; rules that look for one construct inside a function
+    look there too."""
+    out, seen = [fn], {fn.o["id"]}
+    frontier = [fn]
+    for _ in range(depth):
+        nxt = []
+        for f in frontier:
+            for n in walk(f.body):
+                if n.get("k") != "CXXMemberCallExpr":
+                    continue
+                c = n.get("callee") or {}
+                if c.get("f") != "ctpg" or c.get("parent") != f.o.get("parent") or c.get("id") in seen:
+                    continue
+                g = f.facts.by_id.get(c.get("id"))
+                if g is None or g.body is None:
+                    continue
+                seen.add(c["id"])
+                out.append(g)
+                nxt.append(g)
+        frontier = nxt
+    return out
